@@ -2,14 +2,13 @@ SPECIFICATION Spec
 CONSTANTS
   MODE = "matrix"
   SEED = 1
-  ROUND = 2
   T1 = 4
-  T2 = 2
-  T3 = 1
-  NS2 = 24
+  T2 = 1
+  T3 = 0
+  NS2 = 40
   NS3 = 24
   NSBIG = 12
-  NCAP = 12
+  NCAP = 10
   MAXD = 1
   LEN = 1
   MUTANT = FALSE
